@@ -21,16 +21,33 @@ def plan(tier):
     pl = Plan()
     pl.level = "other"
     pl.units = [U("G.getscript", "contracts.bodies", "h_getscript", (), setup=("contracts.client", "setup_typestate"))]
+    shapes = [(), ("plain",), ("active",), ("plain", "active"), ("active", "plain"), ("plain", "plain")]
+    if tier == "thorough":
+        shapes += [("active", "plain", "plain"), ("plain", "active", "plain"), ("plain", "plain", "plain")]
+    for sh in shapes:
+        pl.units.append(U("L.listing.%s" % ("-".join(sh) or "empty"), "contracts.listing", "h_listscripts", (sh,),
+                          setup=("contracts.listing", "setup"), native_ok=True, sample_models=True))
+    for k in ((0, 1, 2, 3) if tier == "quick" else (0, 1, 2, 3, 4)):
+        pl.units.append(U("G.literal-body.%d-lines" % k, "contracts.listing", "h_getscript", (k,),
+                          setup=("contracts.listing", "setup"), native_ok=True, sample_models=True))
     pl.bounded = [bounded_get, bounded_list]
     pl.functions = [("sievelib.managesieve", "Client.getscript"), ("sievelib.managesieve", "Client.listscripts")]
     pl.trusted = [common.TRUSTED_UTF8, "bytes.splitlines and str.join as uninterpreted functions (congruence only)",
                   "contract of __send_command/__read_response: for a literal reply the content is the literal's octets (+CRLF), "
                   "read through __read_block, never through __read_line (C05.R3 frame scan)"]
-    pl.unverified = ["listscripts' per-line decoding: its line pattern needs backtracking the regex model does not cover; bounded only"]
+    pl.unverified = ["listscripts on names sent as literals or containing escapes, getscript on quoted-string bodies: bounded only "
+                     "(and failing: listed findings)"]
     pl.explanation = (
         "Deductive: getscript returns '\\n'.join(decode(l) for l in content.splitlines()) for the WHOLE content (no line "
         "dropped or added), None iff the reply was NO -- an equality of uninterpreted-function terms that a change dropping, "
-        "filtering or re-ordering lines breaks. Bounded (labelled bounded, exhaustive over the pools): 16 protocol-look-alike "
+        "filtering or re-ordering lines breaks. L -- the REAL listscripts / __send_command / __read_response / __read_line (reader "
+        "loops replaced by their C05 summaries) on listings of up to 3 quoted names, each plain or marked ACTIVE, the names "
+        "SYMBOLIC (any non-empty text without quote, backslash, CR, LF): the names returned are exactly the names sent, the "
+        "active one is the marked one, and the reader stops at the end of the reply (the line pattern's backtracking "
+        "`\\s*(.+)` is decided on the structure of the shaped line, pyvc/shape.py). G -- the REAL getscript on a literal body "
+        "of k arbitrary lines (symbolic; a line may be `OK`, `NO (X) \"y\"`, `{5}`, anything without CR/LF): every line comes "
+        "back intact and in order and the reader stops at the end of the reply -- the block is read by count, never "
+        "classified. Bounded (labelled bounded, exhaustive over the pools): 16 protocol-look-alike "
         "bodies x encodings and 11 names x {quoted, literal} x {active, not} x {alone, with another script} served by the "
         "reference server, compared line by line / name by name.")
     return pl
